@@ -807,6 +807,15 @@ def m_adapt(eng, call, args):
     return mk("adapted", args[0], meth, *args[1:])
 
 
+@model("std::iter::repeat_with")
+def m_repeat_with(eng, call, args):
+    """an unbounded iterator whose every element is a fresh invocation of the closure (one call per element, like map)"""
+    r = call_closure(eng, call, args[0], [], tag="#map")
+    if r is None:
+        r = mk("never")
+    return mk("mapped", mk("iter", mk("unbounded", call["site"]), False, call["site"]), r)
+
+
 @model("std::iter::Iterator::enumerate")
 def m_enumerate(eng, call, args):
     return mk("enumerated", args[0])
